@@ -48,7 +48,7 @@ pub fn plan(prop: &str, _tier: Tier) -> Vec<(String, u64)> {
             Tier::Quick => vec![v("release", 8), v("dbg", 4), v("asan", 8), v("miri", 8)],
             Tier::Thorough => vec![v("release", 16), v("dbg", 8), v("asan", 16), v("miri", 16), v("valgrind", 8)],
         },
-        "C18" => vec![v("release", 16)],
+        "C18" => vec![v("release", 16), v("dev", 16)],
         "C12" => match _tier {
             Tier::Quick => vec![v("release", 8), v("tsan", 8), v("miri", 8)],
             Tier::Thorough => vec![v("release", 16), v("tsan", 16), v("miri", 16)],
@@ -91,7 +91,7 @@ pub fn rule(prop: &str) -> (String, Vec<String>) {
         "C15" => format!("one evaluation = one operand pair x operation: Ord on all pairs (never Equal, antisymmetric, agreement with the specified x / y / right-before-left / angular / subject-first order evaluated with exact predicates) and all triples (<=120 events, else 10^5 sampled) of the events before and after subdivision; compare_segments on all pairs of left events with overlapping sweep lifetimes (never Equal, antisymmetric, agreement with the exact vertical order where separated, Equal on identity); {}; non-trivial = full sweep; distinct = hash of (operands, operation, float)", domains),
         "C16" => "one evaluation = one pair of segments handed to the public possible_intersection on fresh events, in both argument orders, compared with the exact relation of the pair (disjoint / shared endpoint / crossing / T / identical / overlap) following the outcome table in DESIGN.md: return code, which segments were divided and where (bit-exact endpoint for T contacts, one common point inside both boxes within tolerance of the exact rational point for crossings, overlap endpoints for overlaps), queue growth, partner links and left/right flags of every piece, typing of coincident pieces incl. the follow-up call; 75% integer pairs < 2^25 biased to shared endpoints / T / collinear / vertical, 12.5% float pairs (f64,f32) in general position, 12.5% ulp-slope constructions around the known one-ulp bump; non-trivial = the two segments are not disjoint; distinct = hash of (coordinates, operands, float)".to_string(),
         "C17" => "one evaluation = one checked transition of the exhaustive breadth-first exploration of every tree shape reachable over a small key universe (every insert/remove/get/next/prev/contains with every present and absent key from every shape, plus 7 terminal operations per shape: into_iter forward / backward / alternating / partially consumed, clear, extend) or one random history (60..1500 steps, key universes 3..1000, monotone and zig-zag runs) in lock-step with BTreeMap / BTreeSet with drop-counting keys and values, structural walks through the non-splaying hook, and reference-stability probes; run natively, with debug assertions, under AddressSanitizer, under Miri (Tree Borrows, leak check) and (thorough) valgrind; distinct = transition index / history parameters, all non-trivial".to_string(),
-        "C18" => "one evaluation = one child process performing one scenario (build in ascending / descending / zig-zag / random order then query+clear, drop, consume forward / backward, partially consume then drop, extend, set drop; early-stopping intersection and difference on combs of thin rectangles, f64 and f32) on the 8 MiB main stack and on a 2 MiB thread stack; the verdict is the child's exit status; distinct = (scenario, size, stack), all non-trivial".to_string(),
+        "C18" => "one evaluation = one child process performing one scenario (build in ascending / descending / zig-zag / random order then query+clear, drop, consume forward / backward, partially consume then drop, extend, set drop; 160 shape scenarios = 4 insertion orders x 8 lookup patterns that fold the chain into spines with side branches x 5 teardowns; early-stopping intersection and difference on combs of thin rectangles, f64 and f32) on the 8 MiB main stack and on a 2 MiB thread stack, in the optimised build and (tree scenarios) in an unoptimised opt-level-0 build; the verdict is the child's exit status; distinct = (scenario, size, stack, build), all non-trivial".to_string(),
         _ => String::new(),
     };
     (r, common)
